@@ -1152,6 +1152,13 @@ class Interp:
         if isinstance(n.op, ast.Add) and lu.op in ("list", "tuple") and \
                 ru.op == lu.op:
             return T(lu.op, *(lu.args + ru.args))
+        if isinstance(n.op, ast.Mult):
+            for a, b in ((lu, ru), (ru, lu)):
+                if a.op in ("list", "tuple") and tm.is_const(b) and \
+                        isinstance(tm.const_val(b), int) and \
+                        not isinstance(tm.const_val(b), bool) and \
+                        0 <= tm.const_val(b) * len(a.args) <= 64:
+                    return T(a.op, *(a.args * tm.const_val(b)))
         return T("binop", type(n.op).__name__, l, r)
 
     def ev_UnaryOp(self, n, frame, live):
